@@ -90,15 +90,28 @@ def resD : Except Err DNA → J
 
 def bad (msg : String) : J := .obj [("bad_request", .str msg)]
 
-def perDna (W : Nat → Bool) (t : Tmpl) (d : DNA) : J :=
+/-- The partially decoded value used as a template for the rest (no filter). -/
+def stage2 (limit : Nat) (v : Tmpl) : J :=
+  let all : Nat → Bool := fun _ => true
+  let spec := dnaSpec all v
+  let size := sizeG spec
+  let decs := match size with
+    | some n => if n ≤ limit then ((enumG spec).take 4).map (fun d => resT (decode all v d)) else []
+    | none => []
+  .obj [("spec", specToJ spec), ("size", match size with | some n => .int n | none => .null),
+        ("decs", .arr decs)]
+
+def perDna (W : Nat → Bool) (filtered : Bool) (limit : Nat) (t : Tmpl) (d : DNA) : J :=
   let dec := decode W t d
-  .obj [("dna", dnaToJ d),
+  .obj ((if filtered then [("stage2", match dec with
+          | .ok v => stage2 limit v
+          | .error _ => .null)] else []) ++ [("dna", dnaToJ d),
         ("valid", .bool (validG (dnaSpec W t) d)),
         ("strict", .bool (validG (dnaSpec W t) d)),
         ("dec", resT dec),
         ("enc", match dec with
           | .ok v => resD (encode W t v)
-          | .error _ => .null)]
+          | .error _ => .null)])
 
 def perValue (W : Nat → Bool) (t : Tmpl) (v : Tmpl) : J :=
   let enc := encode W t v
@@ -117,6 +130,10 @@ def handle (j : J) : J :=
     let W : Nat → Bool := match j.get? "where" with
       | some (.arr xs) => fun tag => xs.any (fun x => x == J.int tag)
       | _ => fun _ => true
+    let filtered : Bool := match j.get? "where" with
+      | some (.arr _) => true
+      | _ => false
+    let limit : Nat := (j.getNat? "stage2_limit").getD 0
     let spec := dnaSpec W t
     let size := sizeG spec
     let dnas : Option (List DNA) := match j.get? "dnas" with
@@ -129,14 +146,25 @@ def handle (j : J) : J :=
     let values : Option (List Tmpl) := match j.get? "values" with
       | some (.arr vs) => vs.mapM tmplOfJ
       | _ => some []
+    let optNum : J → Option Num
+      | .int i => some ⟨i, 0⟩
+      | _ => none
+    let slots : List J := match j.get? "slots" with
+      | some (.arr xs) => xs.map fun x => match x with
+        | .arr [lo, hi, tj] => (match tmplOfJ tj with
+          | some st => J.bool (okB ⟨optNum lo, optNum hi⟩ st)
+          | none => .null)
+        | _ => .null
+      | _ => []
     match dnas, values with
     | some ds, some vs =>
-      .obj [("spec", specToJ spec),
+      .obj [("slots", .arr slots),
+            ("spec", specToJ spec),
             ("size", match size with | some n => .int n | none => .null),
             ("count", .int (specT W t).length),
             ("head_distinct", .bool (headDistinct W t)),
             ("wf", .bool (wfT t)),
-            ("dnas", .arr (ds.map (perDna W t))),
+            ("dnas", .arr (ds.map (perDna W filtered limit t))),
             ("values", .arr (vs.map (perValue W t)))]
     | _, _ => bad "dnas/values"
 
